@@ -129,6 +129,7 @@ func (ss *blobAccessMutableProtoStore[T, TProto]) Get(ctx context.Context, reduc
 			panic("Handle has bad write index")
 		}
 		handle.handlesToWriteIndex = -1
+		handle.isWriting = true
 		handlesToWrite = append(handlesToWrite, handleToWrite[T, TProto]{
 			handle:         handle,
 			message:        proto.Clone(TProto(&handle.message)),
@@ -165,11 +166,13 @@ func (ss *blobAccessMutableProtoStore[T, TProto]) Get(ctx context.Context, reduc
 		group.Go(func() error {
 			if err := ss.initialSizeClassCache.Put(ctxWithCancel, handleToWrite.handle.digest, buffer.NewProtoBufferFromProto(handleToWrite.message, buffer.UserProvided)); err != nil {
 				ss.lock.Lock()
+				handleToWrite.handle.isWriting = false
 				handleToWrite.handle.removeOrQueueForWriteLocked()
 				ss.lock.Unlock()
 				return util.StatusWrapf(err, "Failed to write mutable Protobuf message with digest %#v", handleToWrite.handle.digest.String())
 			}
 			ss.lock.Lock()
+			handleToWrite.handle.isWriting = false
 			handleToWrite.handle.writtenVersion = handleToWrite.writingVersion
 			handleToWrite.handle.removeOrQueueForWriteLocked()
 			ss.lock.Unlock()
@@ -226,6 +229,11 @@ type blobAccessMutableProtoHandle[T any, TProto interface {
 	// track of this index, so that we can remove the handle from
 	// the list if needed.
 	handlesToWriteIndex int
+
+	// Whether a write of this handle is currently in flight. The
+	// handle is not queued for writing again until that write has
+	// completed.
+	isWriting bool
 }
 
 func (sh *blobAccessMutableProtoHandle[T, TProto]) GetMutableProto() TProto {
@@ -274,9 +282,12 @@ func (sh *blobAccessMutableProtoHandle[T, TProto]) removeOrQueueForWriteLocked()
 			sh.dequeueLocked()
 			delete(ss.handles, sh.digest)
 			blobAccessMutableProtoHandlesDestroyed.Inc()
-		} else if sh.handlesToWriteIndex < 0 {
+		} else if sh.handlesToWriteIndex < 0 && !sh.isWriting {
 			// Changes were made and we're not queued. Place
-			// handle in the queue.
+			// handle in the queue, unless a write is still in
+			// flight. In that case it is queued when that
+			// write completes, so that two writes of the same
+			// message can never overtake each other.
 			sh.handlesToWriteIndex = len(ss.handlesToWrite)
 			ss.handlesToWrite = append(ss.handlesToWrite, sh)
 			blobAccessMutableProtoHandlesQueued.Inc()
